@@ -9,7 +9,7 @@ from ..constructeddata import Any, Array, ArrayOf, List
 
 from ..apdu import SimpleAckPDU, ReadPropertyACK, ReadPropertyMultipleACK, \
     ReadAccessResult, ReadAccessResultElement, ReadAccessResultElementChoice
-from ..errors import ExecutionError
+from ..errors import ExecutionError, RejectException, AbortException
 from ..object import PropertyError
 
 # some debugging
@@ -118,13 +118,20 @@ class ReadWritePropertyServices(Capability):
             if _debug: ReadWritePropertyServices._debug("    - datatype: %r", datatype)
 
             # special case for array parts, others are managed by cast_out
-            if issubclass(datatype, Array) and (apdu.propertyArrayIndex is not None):
-                if apdu.propertyArrayIndex == 0:
-                    value = apdu.propertyValue.cast_out(Unsigned)
+            try:
+                if issubclass(datatype, Array) and (apdu.propertyArrayIndex is not None):
+                    if apdu.propertyArrayIndex == 0:
+                        value = apdu.propertyValue.cast_out(Unsigned)
+                    else:
+                        value = apdu.propertyValue.cast_out(datatype.subtype)
                 else:
-                    value = apdu.propertyValue.cast_out(datatype.subtype)
-            else:
-                value = apdu.propertyValue.cast_out(datatype)
+                    value = apdu.propertyValue.cast_out(datatype)
+            except (RejectException, AbortException):
+                raise
+            except Exception as err:
+                # the value cannot be interpreted as the datatype of the property
+                if _debug: ReadWritePropertyServices._debug("    - cast error: %r", err)
+                raise ExecutionError(errorClass='property', errorCode='invalidDataType')
             if _debug: ReadWritePropertyServices._debug("    - value: %r", value)
 
             # change the value
